@@ -47,6 +47,7 @@ def run(ctx, rep):
     c02.r1(prog, ev, Shared(rep, {"C02-R1": "C01-R8"}, lender="C02"))
     r9(prog, ev, rep)
     shared.literal_exact(prog, ev, rep, "C01-R10")
+    shared.selector_tables(prog, ev, rep, "C01-R11")
     if ctx.tier == "thorough":
         from vflib import witness
         witness.report(rep, "C01-W", ['W1', 'W1b'], "compile_fail witnesses: a result (with or without path) cannot outlive the document")
